@@ -38,9 +38,35 @@ type cfgKnown struct {
 	Note    string `json:"note"`
 }
 
+// cfgChanOp is a reviewed, potentially blocking channel operation made while
+// a lock is held.  Justification "drained_under" is CHECKED by the extractor:
+// the channel has the given capacity, and the send is preceded, inside the
+// same hold of the given lock taken in the same function, by a loop that
+// drains the channel (for { select { case <-ch: default: break } }), so that
+// the send cannot block; every send on the channel must be justified this
+// way.  Justification "reviewed" is a reviewed statement only.
+type cfgChanOp struct {
+	Func          string `json:"func"`
+	Chan          string `json:"chan"`
+	Op            string `json:"op"`
+	Justification string `json:"justification"`
+	Lock          string `json:"lock,omitempty"`
+	Cap           int    `json:"cap,omitempty"`
+	Note          string `json:"note"`
+}
+
+type cfgEdgeInst struct {
+	Holder   string `json:"holder"`
+	Acquirer string `json:"acquirer"`
+}
+
 type cfgKnownEdge struct {
-	From    string `json:"from"`
-	To      string `json:"to"`
+	// Instances are the exact (function holding `from`, function acquiring
+	// `to`) pairs the finding consists of; the edge counts as known only if
+	// every instance found in the program is listed.
+	Instances []cfgEdgeInst `json:"instances"`
+	From      string        `json:"from"`
+	To        string        `json:"to"`
 	Finding string `json:"finding"`
 	Note    string `json:"note"`
 }
@@ -53,6 +79,8 @@ type cfgKnownAcq struct {
 }
 
 type config struct {
+	// ChannelOps is the reviewed table of blocking channel operations under locks.
+	ChannelOps []cfgChanOp `json:"channel_ops"`
 	// Gates maps a lock class to the lock class that gates it: every
 	// acquisition of the lock is made with the gate held (checked), so that an
 	// acquisition under the exclusively held gate cannot block.
@@ -109,6 +137,7 @@ type heldLock struct {
 	excl     bool
 	deferred bool
 	outer    bool // held by the caller / enclosing function: stays held until the end
+	seq      int  // identifies the acquisition
 }
 
 type entryLock struct {
@@ -128,10 +157,24 @@ type callSite struct {
 	caller *fctx
 	callee *types.Func
 	held   []entryLock
+	mayCls map[int]bool
 	top    bool
 	isGo   bool
 	init   bool
 	pos    string
+}
+
+type chanOpSite struct {
+	fn       string
+	fobj     *types.Func
+	detached bool
+	ch       string
+	chObj    types.Object
+	op       string
+	pos      string
+	held     map[int]bool // lock classes held locally (must and may)
+	drained  []string     // classes of the local holds under which the channel was drained before
+	init     bool
 }
 
 type acqSite struct {
@@ -151,6 +194,7 @@ type pendingEdge struct {
 	callee *types.Func
 	pos    string
 	rows   []*acqSite
+	holder string
 }
 
 type access struct {
@@ -200,6 +244,7 @@ type analysis struct {
 	sites        []*callSite
 	accs         []*access
 	edgePos      map[[2]int]map[string]bool
+	edgeInsts    map[[2]int]map[[2]string]string
 	pending      []pendingEdge
 	direct       map[*types.Func]map[int]bool
 	callG        map[*types.Func]map[*types.Func]bool
@@ -212,6 +257,8 @@ type analysis struct {
 	addrTaken    map[string]bool
 	dynAll       map[string]int
 	acqSites     []*acqSite
+	chanOps      []*chanOpSite
+	seq          int
 	exemptAcqs   map[string]bool
 }
 
@@ -378,6 +425,7 @@ func (a *analysis) errorf(p token.Pos, format string, args ...any) {
 func (a *analysis) reset() {
 	a.sites, a.accs, a.pending = nil, nil, nil
 	a.edgePos = map[[2]int]map[string]bool{}
+	a.edgeInsts = map[[2]int]map[[2]string]string{}
 	a.direct = map[*types.Func]map[int]bool{}
 	a.callG = map[*types.Func]map[*types.Func]bool{}
 	a.unresolved = map[string]bool{}
@@ -388,6 +436,7 @@ func (a *analysis) reset() {
 	a.addrTaken = map[string]bool{}
 	a.dynAll = map[string]int{}
 	a.acqSites = nil
+	a.chanOps = nil
 	a.exemptAcqs = map[string]bool{}
 }
 
